@@ -6,6 +6,7 @@ import (
 	"context"
 	"fmt"
 	"io"
+	"io/ioutil"
 	"strings"
 	"sync"
 	"sync/atomic"
@@ -563,8 +564,12 @@ func bundleKeys(ctx context.Context, b *Bundle, size uint32, db kvStore, logger 
 		// NOTE: this section issues a GET on remote store for this key and has been seen as the
 		// limiting factor on the throughput of the index building job.
 		// By skipping it on already existing root keys, we shall call this about 2.5x less often.
-		leaves, err := cafs.LeavesForHash(b.BlobStore(), root, size, "")
+		leaves, err := rootLeaves(ctx, b.BlobStore(), root, size)
 		if err != nil {
+			if !errors.Is(err, errCorruptedRoot) {
+				// the blob store could not be read: an index lacking the leaves of this file would get them deleted
+				return nil, err
+			}
 			// The root key is somehow corrupted. This might happen with objects created with previous versions of datamon:
 			// ignore the leaves and just return the root key.
 			logger.Warn("the root key is corrupted: indexing the root, skipping unavailable leaves",
@@ -580,6 +585,36 @@ func bundleKeys(ctx context.Context, b *Bundle, size uint32, db kvStore, logger 
 	}
 
 	return keys, nil
+}
+
+var errCorruptedRoot = errors.New("corrupted root key")
+
+// rootLeaves resolves the leaf keys of a root key. A root blob that is missing or does not hold the keys of
+// that root yields errCorruptedRoot; a blob store that cannot be read (after retries) yields the store's error.
+func rootLeaves(ctx context.Context, blobs storage.Store, root cafs.Key, size uint32) ([]cafs.Key, error) {
+	var blob []byte
+	err := backoff.Retry(func() error {
+		rdr, e := blobs.Get(ctx, root.String())
+		if e != nil {
+			if errors.Is(e, status.ErrNotExists) {
+				return backoff.Permanent(errCorruptedRoot.Wrap(e))
+			}
+			return e
+		}
+		defer rdr.Close()
+		blob, e = ioutil.ReadAll(rdr)
+		return e
+	},
+		backoff.WithContext(defaultBackoff(), ctx),
+	)
+	if err != nil {
+		return nil, err
+	}
+	leaves, err := cafs.LeafKeys(root, blob, size)
+	if err != nil {
+		return nil, errCorruptedRoot.Wrap(err)
+	}
+	return leaves, nil
 }
 
 // PurgeDeleteUnused deletes blob entries that are not referenced by the reserve-lookup index.
